@@ -448,8 +448,8 @@ func c07Pipeline(c *RunCtx, g *Gen) {
 	// taken at delivery; later decodes must not change them
 	type kept struct {
 		obj, snap any
-		name     string
-		conn, i  int
+		name      string
+		conn, i   int
 	}
 	var keep []kept
 	deliver := func(cn *conn) {
